@@ -376,6 +376,13 @@ pub fn read_tree<P: TInputProtocol + RProbe>(p: &mut P, t: u8, c: &mut Ctx) -> R
             rlog(p, c, json!({"op":"r_map_end"}));
             Tree::Map(kt, vt, kvs)
         }
-        _ => panic!("harness: read_tree of ttype {t}"),
+        _ => {
+            // a wire type that is not a value type (void): the only thing a reader can do is skip it
+            p.skip(ttype(t))?;
+            return Err(pilota::thrift::new_protocol_exception(
+                pilota::thrift::ProtocolExceptionKind::InvalidData,
+                "harness: skipped a value of a non-value type",
+            ));
+        }
     })
 }
